@@ -28,7 +28,7 @@ def profiles(tier):
     P.append(("closure", Profile("metadata", spec2, False, mops), {}))
     flip = A.record_weights(KN, U2, [((1, 2), 0), ((1,), 0)], batch_pairs=[(wrecs[0], wrecs[1])])
     P.append(("closure", Profile("weights-on-unweighted", spec2, False, flip, enabled=A.weight_cap(3)), {}))
-    d = 3 if tier == "quick" else 4
+    d = 3 if tier == "quick" else 5
     U3 = (1, 2, 3)
     c3 = [(1, 2), (2, 3), (1, 2, 3), (1,)]
     spec3 = TemporalSpec(U3, 99, c3, times=(0, 1, 2))
